@@ -50,7 +50,7 @@ def tls_files() -> Tuple[str, str]:
         d = tempfile.mkdtemp(prefix='vf-c10-tls-')
         subprocess.run(['openssl', 'req', '-x509', '-newkey', 'ec', '-pkeyopt', 'ec_paramgen_curve:prime256v1', '-nodes', '-days', '2',
                         '-subj', '/CN=localhost', '-keyout', os.path.join(d, 'key.pem'), '-out', os.path.join(d, 'cert.pem')],
-                       check=True, capture_output=True, timeout=60)
+                       check=True, capture_output=True, timeout=600)
         _F[key] = (os.path.join(d, 'key.pem'), os.path.join(d, 'cert.pem'), d)
     return _F[key][0], _F[key][1]
 
